@@ -59,7 +59,9 @@ def scenario(name, shape, cycles, end, late=2, rr=True):
     return "\n".join(lines)
 
 
-def random_op(rng, shape, nkeys, nvals, allow_inv):
+def random_op(rng, shape, nkeys, nvals, allow_inv, live=()):
+    """allow_inv: also invalidate - scalars, and composite positions (root TSB / fixed TSL, the nested list of TSB{a,l}, a TSB
+    child of a TSD whose key is in `live`)"""
     k = lambda: rng.randint(1, nkeys)
     v = lambda: rng.randint(0, nvals)
     r = rng.random()
@@ -76,7 +78,9 @@ def random_op(rng, shape, nkeys, nvals, allow_inv):
     if shape in ("TSL", "TSB"):
         n = 3 if shape == "TSL" else 2
         i = rng.randrange(n)
-        return op("inv", (i,)) if allow_inv and r < 0.12 else op("set", (i,), (v(),))
+        if allow_inv and r < 0.07:
+            return op("inv")                      # the whole bundle / list
+        return op("inv", (i,)) if allow_inv and r < 0.16 else op("set", (i,), (v(),))
     if shape == "TSD":
         if r < 0.55:
             return op("set", (k(),), (v(),))
@@ -88,8 +92,12 @@ def random_op(rng, shape, nkeys, nvals, allow_inv):
             return op("rem", (k(),), (v(),))
         return op("del", (), (k(),)) if r < 0.95 else op("clr")
     if shape == "TSB_TSL":
-        return op("set", (0,), (v(),)) if r < 0.4 else op("set", (1, rng.randrange(2)), (v(),))
+        if allow_inv and r < 0.2:
+            return [op("inv"), op("inv", (1,)), op("inv", (1,)), op("inv", (1, rng.randrange(2))), op("inv", (0,))][int(r * 25)]
+        return op("set", (0,), (v(),)) if r < 0.5 else op("set", (1, rng.randrange(2)), (v(),))
     if shape == "TSD_TSB":
+        if allow_inv and live and r < 0.13:
+            return op("inv", (rng.choice(sorted(live)),))      # the bundle of an existing key
         if r < 0.6:
             return op("set", (k(), rng.randrange(2)), (v(),))
         return op("del", (), (k(),)) if r < 0.95 else op("clr")
@@ -98,6 +106,7 @@ def random_op(rng, shape, nkeys, nvals, allow_inv):
 
 def random_script(rng, shape, horizon, nkeys, nvals, maxops, allow_inv):
     cycles = {}
+    live = set()      # dictionary keys created so far (an invalidation must not create its key)
     for t in range(1, horizon + 1):
         r = rng.random()
         if r < 0.22:
@@ -108,8 +117,8 @@ def random_script(rng, shape, horizon, nkeys, nvals, maxops, allow_inv):
         n = 1 if shape == "TSW" else rng.randint(1, maxops)
         ops = []
         for _ in range(n):
-            o = random_op(rng, shape, nkeys, nvals, allow_inv)
-            if ops and rng.random() < 0.35 and shape not in ("TSW", "TS"):
+            o = random_op(rng, shape, nkeys, nvals, allow_inv, live)
+            if ops and o["op"] != "inv" and rng.random() < 0.35 and shape not in ("TSW", "TS"):
                 # aim at the element touched last (cancellations, repeated writes of one key)
                 prev = ops[-1]
                 tgt = prev["p"][0] if prev["p"] else (prev["a"][0] if prev["a"] else None)
@@ -119,6 +128,13 @@ def random_script(rng, shape, horizon, nkeys, nvals, maxops, allow_inv):
                     elif o["a"]:
                         o["a"][0] = tgt
             ops.append(o)
+            if shape.startswith("TSD"):
+                if o["p"] and o["op"] != "inv":
+                    live.add(o["p"][0])
+                elif o["op"] == "del":
+                    live.discard(o["a"][0])
+                elif o["op"] == "clr" and not o["p"]:
+                    live.clear()
         cycles[t] = ops
     return cycles
 
@@ -154,6 +170,18 @@ class Case:
         self.f2 = has_write_erase_write(cycles)
 
 
+def invalidation_cases(rng, n):
+    """scripts that invalidate composite positions: root TSB / fixed TSL, the list inside TSB{a,l}, a TSB child of a TSD"""
+    cases = []
+    shapes = ["TSB", "TSL", "TSB_TSL", "TSD_TSB"]
+    for i in range(n):
+        shape = shapes[i % 4]
+        horizon = rng.randint(3, 6)
+        cyc = random_script(rng, shape, horizon, 2, 3, 4, True)
+        cases.append(Case("inv%d" % i, shape, cyc, horizon, rng.randint(1, 3), False, "random-invalidation"))
+    return [c for c in cases if c.has_inv]
+
+
 def random_cases(rng, n, tier):
     cases = []
     shapes = list(SHAPES)
@@ -162,7 +190,7 @@ def random_cases(rng, n, tier):
         big = tier == "thorough" and i % 3 == 0
         horizon = rng.randint(8, 30) if big else rng.randint(2, 6)
         nkeys = rng.randint(6, 20) if big else rng.randint(1, 3)
-        allow_inv = shape in ("TS", "TSL", "TSB") and i % 2 == 0
+        allow_inv = shape in ("TS", "TSL", "TSB", "TSB_TSL", "TSD_TSB") and i % 2 == 0
         cyc = random_script(rng, shape, horizon, nkeys, 3, 5 if big else 4, allow_inv)
         cases.append(Case("rnd%d" % i, shape, cyc, horizon, rng.randint(1, min(horizon, 4)), not allow_inv, "random"))
     return cases
@@ -193,8 +221,9 @@ def model_check(chk, quick):
         chk.add_tlc(res[k], "Collections-" + k)
     chk.coverage["exhaustive"] = True
     v = res["asis"].violation
-    chk.notes["design_counterexample_F2"] = ("found: ValueIsPrevPlusDelta is violated by the as-is resurrection branch" if v and "ValueIsPrevPlusDelta" in v
-                                             else "NOT found - the as-is model no longer shows finding F2 (update Collections.tla FixF2)")
+    chk.notes["design_counterexample_F2"] = ("found: the pre-fix resurrection branch (FixF2 = FALSE; /repo 4212fba repaired it) violates ValueIsPrevPlusDelta"
+                                             if v and "ValueIsPrevPlusDelta" in v else
+                                             "NOT found - Collections.tla with FixF2 = FALSE no longer shows the F2 counterexample (vacuity: check the model)")
     return hg.printed_json(res["behaviours"], "COLL"), hg.printed_json(res["simulation"], "COLL")
 
 
@@ -216,6 +245,8 @@ def drift_against_model(case):
         if o is None:
             return "cycle %d: no probe observation" % p["t"]
         for f in ("m", "ok", "lmt", "v", "a", "r", "ks", "mk", "mi"):
+            if f in ("m", "lmt") and (p.get("iv") == 1 or (f == "lmt" and p.get("ok") == 0)):
+                continue      # the consumer's flags in an invalidation cycle / its time stamp while invalid are not constrained
             if f in p and f in o and p[f] != o[f]:
                 return "cycle %d: model predicts %s=%s, real %s" % (p["t"], f, p[f], o[f])
         if "cv" in p and "ch" in o:      # child values / flags
@@ -337,7 +368,8 @@ def main():
     cases = [behaviour_case(k, b, "mc") for k, b in enumerate(behs)] + [behaviour_case(k, b, "sim") for k, b in enumerate(sims)]
     chk.notes["model_behaviours"]["executed"] = len(cases)
     # 2. op-dense random scripts over the whole shape menu (nested shapes, invalidations, slot growth / reuse in thorough)
-    cases += random_cases(rng, 270 if quick else 6000, chk.tier)
+    cases += random_cases(rng, 250 if quick else 6000, chk.tier)
+    cases += invalidation_cases(rng, 60 if quick else 1500)
     if pid == "C20":
         cases = [c for c in cases if c.rr and not c.has_inv]
     traces = hg.run_driver("coll", [c.scn for c in cases])
